@@ -42,8 +42,29 @@ FSIZES = [8, 9, 64, 1344, 65000]
 # ------------------------------------------------------------------ cases
 # case = dict(rel, nreaders, f, ops, fair); op = tuple
 
+M63 = 2**63 - 1
+
+
+class Pat(bytes):
+    """payload bytes that Coq recomputes from (seed, len) with FragCorr.patb"""
+    seed = 0
+
+
+def patb(seed, n):
+    x = seed & M63
+    out = bytearray(n)
+    for i in range(n):
+        out[i] = (x >> 33) & 255
+        x = (x * 6364136223846793005 + 1442695040888963407) & M63
+    p = Pat(bytes(out))
+    p.seed = seed
+    return p
+
+
 def payload(r, n):
-    return bytes(r.getrandbits(8) for _ in range(n)) if n < 4096 else r.randbytes(n)
+    if n <= 1024:
+        return bytes(r.getrandbits(8) for _ in range(n))
+    return patb(r.randint(0, 2**40), n)
 
 
 def nfrag(n, f):
@@ -345,11 +366,21 @@ def parse_line(line):
 
 
 def cb(b):
-    # long literals are split into chunks: a flat 100k-element list notation overflows coqc's stack
+    if isinstance(b, Pat):
+        return "(patb %d %d)" % (b.seed, len(b))
     if len(b) <= 1024:
         return "[" + ";".join(str(x) for x in b) + "]"
+    # (replay of a big case from its text line) chunked, a flat 100k-element list overflows coqc's stack
     return "(concat [" + ";".join("[" + ";".join(str(x) for x in b[i:i + 512]) + "]"
                                   for i in range(0, len(b), 512)) + "])"
+
+
+def od(tok):
+    """implementation data token: hex, '-' or '#len.digest'"""
+    if tok.startswith("#"):
+        l, h = tok[1:].split(".")
+        return "(Dig %d %d)" % (int(l), int(h))
+    return "(Raw %s)" % cb(bytes.fromhex(tok) if tok != "-" else b"")
 
 
 def czl(l):
@@ -383,13 +414,11 @@ def op_term(o):
 def item_term(s):
     t = s.split(":")
     if t[0] == "F":
-        data = bytes.fromhex(t[7]) if t[7] != "-" else b""
-        return "WFrag " + frag_term(*[int(x) for x in t[1:7]], data)
+        return "VFrag (mkofrag %s %s)" % (" ".join(cz(int(x)) for x in t[1:7]), od(t[7]))
     if t[0] == "D":
-        data = bytes.fromhex(t[3]) if t[3] != "-" else b""
-        return "WData %s %s %s" % (cz(int(t[1])), cz(int(t[2])), cb(data))
+        return "VData %s %s %s" % (cz(int(t[1])), cz(int(t[2])), od(t[3]))
     if t[0] == "G":
-        return "WGap %s" % cz(int(t[1]))
+        return "VGap %s" % cz(int(t[1]))
     raise ValueError(s)
 
 
@@ -402,10 +431,10 @@ def obs_term(o, text):
     text = text.strip()
     if k == "W":
         assert text.startswith("S")
-        return "BSent [" + "; ".join(item_term(x) for x in text[1:].split()) + "]"
+        return "VSent [" + "; ".join(item_term(x) for x in text[1:].split()) + "]"
     if k in ("D", "X"):
         assert text.startswith("C ")
-        return "BCount " + cz(int(text[2:]))
+        return "VCount " + cz(int(text[2:]))
     if k == "H":
         assert text.startswith("R")
         ack, nf = None, None
@@ -416,22 +445,22 @@ def obs_term(o, text):
             elif t[0] == "nf":
                 nf = "(mkNf %s %s %s %s)" % (cz(int(t[1])), cz(int(t[2])), czl(zs(t[3])), cz(int(t[4])))
         if ack is None:
-            return "BReply None"
-        return "BReply (Some (%s, %s))" % (ack, "Some " + nf if nf else "None")
+            return "VReply None"
+        return "VReply (Some (%s, %s))" % (ack, "Some " + nf if nf else "None")
     if k in ("N", "F", "A"):
         a, b = text.split(";")
         a, b = a.strip(), b.strip()
         assert a.startswith("S") and b.startswith("C ")
-        return "BResp [%s] %s" % ("; ".join(item_term(x) for x in a[1:].split()), cz(int(b[2:])))
+        return "VResp [%s] %s" % ("; ".join(item_term(x) for x in a[1:].split()), cz(int(b[2:])))
     raise ValueError(k)
 
 
 def out_term(c, out):
     if out.startswith("PANIC"):
         return "(Panic 0)"
-    if "#" not in out:
+    if " # " not in out + " ":
         return None
-    tr, ch = out.split("#")
+    tr, ch = (out + " ").split(" # ")
     obs = [x for x in tr.split("|")]
     if len(c["ops"]) == 0:
         obs = []
@@ -441,7 +470,7 @@ def out_term(c, out):
     cht = []
     for w in ch.split():
         sn, h = w.split(":")
-        cht.append("(%s, %s)" % (cz(int(sn)), cb(bytes.fromhex(h) if h != "-" else b"")))
+        cht.append("(%s, %s)" % (cz(int(sn)), od(h)))
     return "(Ok (%s, [%s]))" % (ot, "; ".join(cht))
 
 
@@ -460,7 +489,7 @@ def nontrivial(c, out):
     if out.startswith("PANIC"):
         return None
     frag = any(o[0] == "W" and len(o[1]) > c["f"] for o in c["ops"])
-    delivered = out.split("#")[-1].strip() != ""
+    delivered = (out + " ").split(" # ")[-1].strip() != ""
     rounds = any(o[0] in ("N", "A", "F") for o in c["ops"])
     if frag and (delivered or rounds):
         return case_line(c)
